@@ -37,6 +37,13 @@ def _gen_merge(rng, size):
     d = _tmpdir()
     tag = f"{os.getpid()}_{rng.randrange(10**9)}"
     ds = c09.make_dataset(rng, n_cells=4)
+    if rng.random() < 0.2:
+        # 21-27 clusters: with the stage's row chunking (a tenth of the clusters) the last chunk is partial
+        n_cl = rng.randint(21, 27)
+        clusters = [f"cl{j:02d}" for j in range(n_cl)]
+        ds = dict(ds, clusters=clusters, subs=['sub0', 'sub1'], classes=['class0'],
+                  sub_of={c: ('sub0' if j % 2 else 'sub1') for j, c in enumerate(clusters)},
+                  cls_of={'sub0': 'class0', 'sub1': 'class0'})
     tdata = c09.tree_data(ds, with_cells=False)
     leaves = sorted(ds['clusters'])
     n_g = len(ds['genes'])
